@@ -27,7 +27,7 @@ def run(eng: Engine, ck: Check):
     mt = eng.func(TM, 'TransferManager.manage_transfers')
     # ---- R-C05-BOUND
     starts = [(f, st, v) for f, st, v in eng.stores_to_attr('_transfer_task')
-              if v is not None and any(call_name(x) == '_initialize_upload' for x in ast.walk(v))]
+              if v is not None and any(call_name(x) == '_initialize_upload' for x in ast.walk(expand_aliases(f, v)))]
     ck.floor('R-C05-BOUND', len(starts), 1)
     iu = eng.func(TM, 'TransferManager._initialize_upload')
     for caller, call, how in eng.res.callers_of(iu):
@@ -53,6 +53,34 @@ def run(eng: Engine, ck: Check):
                     mentions_name(src, 'uploads')
             else:
                 detail = f'iterates `{unparse(it)}` (not a slice bounded by the free slots)'
+                # countdown idiom: n = get_free_upload_slots(); for u in uploads: if n <= 0: break; n -= 1; start(u)
+                loop = loops[0]
+                for e, pol, _ in eng.guards_at(f, st):
+                    a = cmp_atom(e)
+                    if not a or not isinstance(a[1], ast.Name):
+                        continue
+                    positive = (a[0] in ('gt',) and pol and const(a[2]) == 0) or (a[0] in ('le',) and not pol and const(a[2]) == 0) or \
+                        (a[0] == 'ge' and pol and const(a[2]) == 1) or (a[0] == 'lt' and not pol and const(a[2]) == 1)
+                    if not positive:
+                        continue
+                    n_ = a[1].id
+                    writes = [w for w in walk_local(f.node) if (isinstance(w, ast.Assign) and any(isinstance(t, ast.Name) and t.id == n_ for t in w.targets))
+                              or (isinstance(w, ast.AugAssign) and isinstance(w.target, ast.Name) and w.target.id == n_)]
+                    inits = [w for w in writes if isinstance(w, ast.Assign)]
+                    decs = [w for w in writes if isinstance(w, ast.AugAssign)]
+                    init_ok = len(inits) == 1 and isinstance(inits[0].value, ast.Call) and call_name(inits[0].value) == 'get_free_upload_slots' and \
+                        loop not in list(ancestors(inits[0]))
+                    dec_ok = len(decs) == 1 and isinstance(decs[0].op, ast.Sub) and const(decs[0].value) == 1 and loop in list(ancestors(decs[0])) and \
+                        parent(decs[0]) is loop
+                    if init_ok and dec_ok:
+                        cf = eng.cfg(f)
+                        # every path from the loop head to the store passes the decrement
+                        dn = cf.nodes_for(decs[0])
+                        sn = cf.nodes_for(st)
+                        hn = cf.nodes_for(loop)
+                        pth = cf.find_path(hn, lambda n: n in sn, avoid=lambda n: n in dn)
+                        ok = pth is None
+                        detail = f'countdown of `{n_}` from get_free_upload_slots(); store reachable without the decrement: {pth is not None}'
         ck.ob('R-C05-BOUND', f, st, 'per cycle at most get_free_upload_slots() uploads are started (loop over uploads[:free])', ok, detail,
               construct='upload start loop bound')
         gs = eng.guards_at(f, st)
@@ -119,6 +147,9 @@ def run(eng: Engine, ck: Check):
             d = sa.get(nm)
             if d is not None and isinstance(d, (ast.SetComp, ast.Call)) and 'is_processing' in unparse(d) and 'is_upload' in unparse(d):
                 processing_set = nm
+            elif d is not None and isinstance(d, (ast.SetComp, ast.Call)) and any(call_name(x) == 'get_uploading' for x in ast.walk(d)) and \
+                    mentions_attr(d, 'username'):
+                processing_set = nm        # get_uploading() is checked separately ("occupied slots definition")
             adds = [x for x in calls_in(gq.node) if call_name(x) == 'add' and unparse(x.func.value) == nm]
             if adds:
                 cycle_set = nm
@@ -155,24 +186,24 @@ def run(eng: Engine, ck: Check):
     pu = eng.func(TM, 'TransferManager._prioritize_uploads')
     ck.visited(pu)
     weights: dict[str, int] = {}
-    for n in walk_local(pu.node):
-        if isinstance(n, ast.AugAssign) and isinstance(n.op, ast.Add) and isinstance(const(n.value), int):
-            gs = expanded_guards(eng, pu, n)
+    for pu_, n in [(f_, n_) for f_ in eng.scope(pu) for n_ in walk_local(f_.node)]:
+        if isinstance(n, ast.AugAssign) and isinstance(n.op, ast.Add) and isinstance(cval(eng.repo, pu_, n.value), int):
+            gs = expanded_guards(eng, pu_, n)
             kind = None
             for e, pol, _ in gs:
                 if not pol:
                     continue
                 if mentions_attr(e, 'privileged'):
                     kind = 'privileged'
-                elif (cmp_atom(e) or ('',))[0] == 'in' and mentions_attr(e, 'friends') and mentions_attr(cmp_atom(e)[1], 'username'):
+                elif (cmp_atom(e) or ('',))[0] == 'in' and mentions(cmp_atom(e)[2], 'friends') and mentions_attr(cmp_atom(e)[1], 'username'):
                     kind = 'friend'
                 elif mentions_attr(e, 'status') and enum_members_in(e) == {'ONLINE', 'AWAY'}:
                     kind = 'online'
             if kind is None:
-                ck.ob('R-C05-RANK', pu, n, 'every weight is added under one of the three documented tests', False,
+                ck.ob('R-C05-RANK', pu_, n, 'every weight is added under one of the three documented tests', False,
                       f'`{unparse(n)}` under {[unparse(e) for e, _, _ in gs]}', construct=alpha_key(n))
             else:
-                weights[kind] = weights.get(kind, 0) + const(n.value)
+                weights[kind] = weights.get(kind, 0) + cval(eng.repo, pu_, n.value)
     ck.floor('R-C05-RANK.weights', len(weights), 3)
     w = weights
     ok = len(w) == 3 and w['privileged'] > w['friend'] + w['online'] and w['friend'] > w['online'] > 0
